@@ -38,3 +38,10 @@
 ;; ghost cver Int
 ;; ghost vcver Int
 ;; ghost lastCtxErrNil Bool
+; channels and timers (A-CHAN / A-STD ghost state)
+;; ghost closed (Array Int Bool)
+;; ghost nsent Int
+;; ghost timerDelay (Array Int Int)
+;; ghost timerFn (Array Int Int)
+;; ghost timerStopped (Array Int Bool)
+;; ghost lastTimerStopResult Bool
